@@ -30,6 +30,7 @@ type mutant struct {
 	Benign bool     `json:"benign"` // behaviour-preserving: every listed check must stay silent
 	Expect string   `json:"expect"` // rule id expected to fire (informational)
 	Why    string   `json:"why"`
+	Base   string   `json:"base"` // optional: a patch under /verif/mutants applied first (a benign refactoring the mutation is made in)
 	patch  string   // path of a patch file instead of old/new
 }
 
@@ -129,6 +130,15 @@ func selftestImpl(verifDir, repo, prop string) map[string]any {
 					return
 				}
 			} else {
+				if m.Base != "" {
+					cmd := exec.Command("patch", "-p1", "-s", "-f", "-i", filepath.Join(verifDir, "mutants", m.Base))
+					cmd.Dir = dst
+					if out, err := cmd.CombinedOutput(); err != nil {
+						r.Outcome, r.Detail = "skipped", "base refactoring no longer applies to the current tree: "+firstLine(string(out))
+						results[i] = r
+						return
+					}
+				}
 				p := filepath.Join(dst, m.File)
 				b, err := os.ReadFile(p)
 				if err != nil || strings.Count(string(b), m.Old) != 1 {
